@@ -71,47 +71,192 @@ func caseCalls(sw *ast.SwitchStmt) string {
 	return "[" + strings.Join(rows, ", ") + "]"
 }
 
+// inspectWithCallees visits fn's body in source order; at a call of a package-level function or
+// of a method of fn's receiver type declared in the same file, the callee's body is visited at the
+// position of the call (each function once). A test moved into a helper is still found.
+func inspectWithCallees(f *ast.File, fn *ast.FuncDecl, visit func(ast.Node)) {
+	if fn == nil || fn.Body == nil {
+		return
+	}
+	recv := ""
+	if fn.Recv != nil && len(fn.Recv.List) == 1 {
+		t := fn.Recv.List[0].Type
+		if s, ok := t.(*ast.StarExpr); ok {
+			t = s.X
+		}
+		if id, ok := t.(*ast.Ident); ok {
+			recv = id.Name
+		}
+	}
+	seen := map[*ast.FuncDecl]bool{fn: true}
+	var walk func(n ast.Node)
+	walk = func(n ast.Node) {
+		ast.Inspect(n, func(x ast.Node) bool {
+			if x == nil {
+				return false
+			}
+			visit(x)
+			if c, ok := x.(*ast.CallExpr); ok {
+				var callee *ast.FuncDecl
+				switch fun := c.Fun.(type) {
+				case *ast.Ident:
+					callee = funcDecl(f, "", fun.Name)
+				case *ast.SelectorExpr:
+					if _, ok := fun.X.(*ast.Ident); ok && recv != "" {
+						callee = funcDecl(f, recv, fun.Sel.Name)
+					}
+				}
+				if callee != nil && callee.Body != nil && !seen[callee] {
+					seen[callee] = true
+					for _, a := range c.Args {
+						walk(a)
+					}
+					walk(callee.Body)
+					return false
+				}
+			}
+			return true
+		})
+	}
+	walk(fn.Body)
+}
+
+// callArgs returns the printed arguments (from index `from`) of the first call of `fun` in n.
+func callArgs(n ast.Node, fun string, from int) []string {
+	var out []string
+	found := false
+	if n == nil {
+		return out
+	}
+	ast.Inspect(n, func(x ast.Node) bool {
+		if c, ok := x.(*ast.CallExpr); ok && !found && src(c.Fun) == fun {
+			found = true
+			for i, a := range c.Args {
+				if i >= from {
+					out = append(out, src(a))
+				}
+			}
+		}
+		return !found
+	})
+	return out
+}
+
 func extractGrpc() {
 	f := parse("h2/grpc/grpc.go")
 	g := newGen("Grpc")
 
 	hdr := funcDecl(f, "adapter", "Header")
-	// grpc-encoding value -> Encoding constant
-	var names [][2]string
-	if sw := switchOn(hdr, "h.Value"); sw != nil {
-		for _, st := range sw.Body.List {
-			cc, ok := st.(*ast.CaseClause)
-			if !ok || len(cc.List) != 1 || len(cc.Body) != 1 {
+	// the Encoding constants (the `const ( Identity Encoding = iota … )` block)
+	encConsts := map[string]bool{}
+	for _, d := range f.Decls {
+		gd, ok := d.(*ast.GenDecl)
+		if !ok || gd.Tok != token.CONST {
+			continue
+		}
+		isEnc := false
+		for _, sp := range gd.Specs {
+			vs, ok := sp.(*ast.ValueSpec)
+			if !ok {
 				continue
 			}
-			lit, ok1 := cc.List[0].(*ast.BasicLit)
-			as, ok2 := cc.Body[0].(*ast.AssignStmt)
-			if !ok1 || !ok2 || len(as.Rhs) != 1 {
+			if vs.Type != nil {
+				isEnc = src(vs.Type) == "Encoding"
+			}
+			if isEnc {
+				for _, nm := range vs.Names {
+					encConsts[nm.Name] = true
+				}
+			}
+		}
+	}
+	// grpc-encoding value -> Encoding constant: the switch (in adapter.Header or a helper it calls)
+	// whose cases are string literals and whose bodies name an Encoding constant - written as an
+	// assignment, a setter call or a return
+	var names [][2]string
+	inspectWithCallees(f, hdr, func(n ast.Node) {
+		sw, ok := n.(*ast.SwitchStmt)
+		if !ok || len(names) > 0 {
+			return
+		}
+		if se, ok := sw.Tag.(*ast.SelectorExpr); ok && se.Sel.Name == "Name" {
+			return // a switch on the field NAME (its cases are header names, not encodings)
+		}
+		var rows [][2]string
+		for _, st := range sw.Body.List {
+			cc, ok := st.(*ast.CaseClause)
+			if !ok || len(cc.List) != 1 {
+				continue
+			}
+			lit, ok := cc.List[0].(*ast.BasicLit)
+			if !ok || lit.Kind != token.STRING {
 				continue
 			}
 			v, err := strconv.Unquote(lit.Value)
 			if err != nil {
 				continue
 			}
-			names = append(names, [2]string{v, src(as.Rhs[0])})
+			c := ""
+			for _, b := range cc.Body {
+				ast.Inspect(b, func(x ast.Node) bool {
+					if id, ok := x.(*ast.Ident); ok && c == "" && encConsts[id.Name] {
+						c = id.Name
+					}
+					return c == ""
+				})
+			}
+			if c != "" {
+				rows = append(rows, [2]string{v, c})
+			}
 		}
-	}
+		if len(rows) > 0 {
+			names = rows
+		}
+	})
 	g.def("encodingNames", "List (String × String)", leanPairs(names))
 
-	// `h.Name == "…"` / `h.Value == "…"` tests of adapter.Header, in source order
+	// the string literals adapter.Header (or a helper it calls) compares the Name / Value of a header
+	// field with FOR EQUALITY, in source order: `x.Name == "…"` / `x.Value == "…"`, or the same test
+	// written `switch x.Name { case "…": }` (a switch on the Value is the encoding table above). A
+	// prefix or case-insensitive test is not listed, so the fact breaks on it.
 	var tests [][2]string
-	if hdr != nil {
-		ast.Inspect(hdr, func(n ast.Node) bool {
-			if b, ok := n.(*ast.BinaryExpr); ok && b.Op == token.EQL {
-				if lit, ok := b.Y.(*ast.BasicLit); ok && lit.Kind == token.STRING {
+	fieldOf := func(e ast.Expr) string {
+		if se, ok := e.(*ast.SelectorExpr); ok && (se.Sel.Name == "Name" || se.Sel.Name == "Value") {
+			return se.Sel.Name
+		}
+		return ""
+	}
+	nameCase := map[*ast.CaseClause]bool{}
+	inspectWithCallees(f, hdr, func(n ast.Node) {
+		switch x := n.(type) {
+		case *ast.BinaryExpr:
+			if x.Op == token.EQL && fieldOf(x.X) != "" {
+				if lit, ok := x.Y.(*ast.BasicLit); ok && lit.Kind == token.STRING {
 					if v, err := strconv.Unquote(lit.Value); err == nil {
-						tests = append(tests, [2]string{src(b.X), v})
+						tests = append(tests, [2]string{fieldOf(x.X), v})
 					}
 				}
 			}
-			return true
-		})
-	}
+		case *ast.SwitchStmt:
+			if x.Tag != nil && fieldOf(x.Tag) == "Name" {
+				for _, st := range x.Body.List {
+					if cc, ok := st.(*ast.CaseClause); ok {
+						nameCase[cc] = true
+					}
+				}
+			}
+		case *ast.CaseClause:
+			if nameCase[x] {
+				for _, e := range x.List {
+					if lit, ok := e.(*ast.BasicLit); ok && lit.Kind == token.STRING {
+						if v, err := strconv.Unquote(lit.Value); err == nil {
+							tests = append(tests, [2]string{"Name", v})
+						}
+					}
+				}
+			}
+		}
+	})
 	g.def("headerTests", "List (String × String)", leanPairs(tests))
 
 	data := funcDecl(f, "adapter", "Data")
@@ -128,6 +273,50 @@ func extractGrpc() {
 		})
 	}
 	g.def("prefixLen", "Nat", pl)
+
+	// the 32-bit arithmetic of the length prefix: the type of adapter.length, the ordering comparisons
+	// adapter.Data makes with it (the buffer length is converted to uint32 first), and how the prefix is
+	// read and written (byte order, target / converted value)
+	lt := ""
+	for _, d := range f.Decls {
+		gd, ok := d.(*ast.GenDecl)
+		if !ok {
+			continue
+		}
+		for _, sp := range gd.Specs {
+			ts, ok := sp.(*ast.TypeSpec)
+			if !ok || ts.Name.Name != "adapter" {
+				continue
+			}
+			if st, ok := ts.Type.(*ast.StructType); ok {
+				for _, fl := range st.Fields.List {
+					for _, nm := range fl.Names {
+						if nm.Name == "length" {
+							lt = src(fl.Type)
+						}
+					}
+				}
+			}
+		}
+	}
+	g.def("lengthFieldType", "String", leanStr(lt))
+	var cmps []string
+	if data != nil {
+		ast.Inspect(data, func(n ast.Node) bool {
+			if b, ok := n.(*ast.BinaryExpr); ok {
+				switch b.Op {
+				case token.LSS, token.GTR, token.LEQ, token.GEQ:
+					if strings.Contains(src(b), "a.length") {
+						cmps = append(cmps, src(b))
+					}
+				}
+			}
+			return true
+		})
+	}
+	g.def("lengthCompares", "List String", leanList(cmps))
+	g.def("prefixRead", "List String", leanList(callArgs(data, "binary.Read", 1)))
+	g.def("prefixWrite", "List String", leanList(callArgs(funcDecl(f, "emitter", "Message"), "binary.Write", 1)))
 	g.def("decodeCalls", "List (String × List String)", caseCalls(switchOn(data, "a.encoding")))
 	g.def("encodeCalls", "List (String × List String)", caseCalls(switchOn(funcDecl(f, "emitter", "Message"), "e.adapter.encoding")))
 	var helpers []string
